@@ -1081,6 +1081,62 @@ def c09_session(live, rng, heal_at=None, origin=None, params=None, random_close=
     return S
 
 
+def halfclose_unread_session(live, rng, lossy=False):
+    """C08 (E) directed: both applications half-close (shutdown WR) and the whole FIN handshake runs to CLOSED while
+    correctly received bytes are still UNREAD in one or both receive buffers; only then the readers read.  Every byte
+    written before the graceful close must still come out, and only then end-of-stream."""
+    S = Sess(live, rng)
+    if not start_pair(S, rng, None, dict(finack_l=1, finack_r=1, rcvbuf_l=65536, rcvbuf_r=65536)):
+        return S
+    if not establish(S, rng):
+        return S
+    want = {"l": rng.choice([1, 100, 3000, 20000]), "r": rng.choice([0, 0, 500, 2000])}
+    for x in ("l", "r"):
+        todo = want[x]
+        while todo > 0 and S.alive():
+            d = S.send(x, min(todo, 5000), rng.randrange(256))
+            if not d or d["ret"] <= 0:
+                break
+            todo -= d["ret"]
+    order = ["l", "r"] if rng.random() < 0.5 else ["r", "l"]
+    pending_shut = list(order)
+    if rng.random() < 0.5:
+        S.shut(pending_shut.pop(0), "wr")      # the first FIN travels with / behind the data
+    for _ in range(400):
+        if not S.alive():
+            break
+        if S.net["l"] or S.net["r"]:
+            if lossy and rng.random() < 0.15:
+                x = rng.choice([y for y in ("l", "r") if S.net[y]])
+                del S.net[x][rng.randrange(len(S.net[x]))]
+            else:
+                net_step(S, rng, lossy=False)
+            continue
+        if pending_shut:
+            S.shut(pending_shut.pop(0), "wr")
+            continue
+        ql, qr = S.q("l"), S.q("r")
+        if not ql or not qr or (ql["q"]["closed"] and qr["q"]["closed"]):
+            break
+        dl = {}
+        for x in ("l", "r"):
+            d = S.next(x)
+            if d and d["ret"] == 1:
+                dl[x] = (int(d["x"]) - S.now) % M32
+        if not dl:
+            break
+        x = min(dl, key=dl.get)
+        S.t(S.now + (dl[x] if 0 < dl[x] <= 70000 else 1))
+        S.clock(x)
+    # only now the applications read
+    for x in ("l", "r"):
+        for _ in range(40):
+            d = S.recv(x, rng.choice([100, 4096, 70000]))
+            if not d or d["ret"] <= 0:
+                break
+    return S
+
+
 def c09_stall_session(live, rng, stall_ms, params=None, origin=None):
     """the network never loses anything; the only adversity is a reader (r) that does not read for `stall_ms` while the
     writer has far more data than r's receive buffer, so the receive window closes "for a while"; then the loss-free
